@@ -263,6 +263,49 @@ def live_vs_stored(report, backend, rng, keys, tag):
         relay.close()
 
 
+def closed_means_closed(report, backend, rng, keys, tag):
+    """subscription ids of every JSON type a client may send (numbers, null, booleans, strings that spell them): REQ and CLOSE
+    must agree on what names a subscription — after CLOSE <id> no push arrives under it, the others keep receiving"""
+    relay = Relay(backend)
+    try:
+        a, pub = Conn(relay), Conn(relay, remote_addr="3.3.3.3")
+        ids = [7, "7", None, True, 1.5, "ctl", 0, ""]
+        rng.shuffle(ids)
+        chosen = ids[:rng.choice([3, 4, 5])]
+        if "ctl" not in chosen:
+            chosen.append("ctl")
+        for s in chosen:
+            a.send(["REQ", s, {"kinds": [1]}])
+        payload = {"backend": backend, "case": "closed-means-closed", "ids": chosen}
+        n = len(a.out)
+        e1 = relay.signed_event(keys[0], kind=1, content="first %s %s" % (backend, tag), created_at=T0 + 10)
+        pub.send_event(e1)
+        open_now = sorted({str(s) for s in chosen})
+        got1 = sorted(f[1] for f in a.frames(n) if isinstance(f, list) and f[0] == "EVENT" and f[2]["id"] == e1["id"])
+        if got1 != open_now:
+            report.property_failure("%s: with subscriptions %r open an accepted event was pushed under %r" % (backend, open_now, got1),
+                                    payload, None)
+        to_close = [s for s in chosen if s != "ctl"]
+        closing = rng.sample(to_close, max(1, len(to_close) // 2))
+        for s in closing:
+            a.send(["CLOSE", s])
+        still = sorted({str(s) for s in chosen} - {str(s) for s in closing})
+        n = len(a.out)
+        e2 = relay.signed_event(keys[1], kind=1, content="second %s %s" % (backend, tag), created_at=T0 + 20)
+        pub.send_event(e2)
+        got2 = sorted(f[1] for f in a.frames(n) if isinstance(f, list) and f[0] == "EVENT" and f[2]["id"] == e2["id"])
+        if got2 != still:
+            report.property_failure("%s: after CLOSE of %r (sent as %r) an accepted event was pushed under %r, expected %r"
+                                    % (backend, sorted(str(s) for s in closing), closing, got2, still), {**payload, "closed": closing}, None)
+        a.close()
+        pub.close()
+        report.case(("closed", backend, tag, repr(chosen), repr(closing)), nontrivial=True,
+                    sample={"case": "closed-means-closed", "backend": backend, "ids": [repr(x) for x in chosen]})
+        report.count("closed_means_closed")
+    finally:
+        relay.close()
+
+
 def run(report, tier, seed):
     rng = random.Random(seed)
     drv = common.Driver()
@@ -274,6 +317,7 @@ def run(report, tier, seed):
         "(incl. 0 and boundary values), delegation tags, valueless tags; fan-out sessions of 10-24 messages on 2-4 connections on "
         "both backends with subscription ids shared between connections, half of them with colliding connection ids; live-vs-stored: "
         "5-10 filters open on one connection, 4-11 events (one NIP-26 delegated) published, then every filter queried; "
+        "subscription ids of every JSON type (numbers, null, booleans, the strings that spell them) opened, some closed, then an event; "
         "unsettled trace sessions: bursts of 1-6 messages on 2-4 connections are queued before the loop runs, the run is "
         "recorded as labels of the machine (wrappers applied from outside) and must be accepted by `proto.trace` with equal "
         "transcripts; "
@@ -288,6 +332,7 @@ def run(report, tier, seed):
         for i in range(3 if tier == "quick" else 60):
             for backend in ("sql", "kv"):
                 live_vs_stored(report, backend, rng, keys, i)
+                closed_means_closed(report, backend, rng, keys, i)
         # unsettled runs: the recorded schedule of the real relay must be a run of the machine
         for i in range(5 if tier == "quick" else 120):
             for backend in ("sql", "kv"):
